@@ -210,3 +210,60 @@ func FreshFrom(ctor Ctor, from *Replica, route int, save func(context.Context, i
 		return &Replica{Name: from.Name, Store: st, Env: env}
 	}
 }
+
+// BatchedRestart: a reader that writes nothing receives the heads of x and then
+// the heads of y in two separate batches (concurrent branches stay a fork in
+// its log), is closed, reopened over its own cache and blocks and loaded from
+// disk.  Returns the reader's ordered log before the restart and the reloaded
+// replica.
+func BatchedRestart(ctor Ctor, x, y *Replica) ([]string, *Replica) {
+	ac := x.Store.AccessController()
+	c := Open(ctor, "r", x.Env.Blocks, ac, false, nil)
+	if c == nil {
+		return nil, nil
+	}
+	c.SyncFrom(x)
+	c.SyncFrom(y)
+	before := c.Hashes()
+	if err := c.Store.Close(); err != nil {
+		vstub.Fail("Close failed")
+		return nil, nil
+	}
+	r := Open(ctor, "r", x.Env.Blocks, ac, false, c.Env.Cache)
+	if r == nil {
+		return nil, nil
+	}
+	if err := r.Store.Load(context.Background(), -1); err != nil {
+		vstub.Fail("Load from disk failed")
+		return nil, nil
+	}
+	vstub.WaitIdle()
+	return before, r
+}
+
+// Converge ends a two-writer history: a and b exchange heads both ways and a
+// third replica receives the same entries by one of four routes (FreshFrom's
+// three, or 3 = the heads of a and b in two separate batches in either order
+// before they merge, then a restart from its own disk followed by the merged
+// heads).  restartBefore is the route-3 reader's log before its restart.
+func Converge(ctor Ctor, a, b *Replica, save func(context.Context, iface.Store) error) (r *Replica, restartBefore, restartAfter []string) {
+	route := vstub.NdChoice("route", 4)
+	if route == 3 {
+		x, y := a, b
+		if vstub.NdChoice("batch-order", 2) == 1 {
+			x, y = b, a
+		}
+		restartBefore, r = BatchedRestart(ctor, x, y)
+		if r == nil {
+			return nil, nil, nil
+		}
+		restartAfter = r.Hashes()
+	}
+	a.SyncFrom(b)
+	b.SyncFrom(a)
+	if route == 3 {
+		r.SyncFrom(a)
+		return r, restartBefore, restartAfter
+	}
+	return FreshFrom(ctor, a, route, save), nil, nil
+}
